@@ -55,6 +55,7 @@ def check_write_discipline(chk):
         for did, name in vs.items():
             idx = order_index(fn)
             writes, syncs, tests = [], [], []
+            weak = set()
             par = gen.parents(fn)
             for n in walk(fn["body"]):
                 c = n.get("callee") or {}
@@ -71,6 +72,11 @@ def check_write_discipline(chk):
                     arm = n.get("then") if neg_test else n.get("else")
                     if arm is not None and gen.always_exits(arm) and any((x.get("callee") or {}).get("name") == "throw_error" for x in walk(arm)):
                         tests.append(n)
+                        # which iostate bits the test sees: operator!/fail() = failbit|badbit, !good() = any bit,
+                        # bad() = badbit only (basic_filebuf::close() and a failed flush report through failbit)
+                        if not any(re.match(r"^!\s*[\w.>-]+$", c2) or ".fail()" in c2 or re.match(r"^!.*\.good\(\)$", c2) or re.match(r"^!.*\.is_open\(\)$", c2)
+                                   for c2 in conds):
+                            weak.add(id(n))
             # open mode
             init = None
             for n in walk(fn["body"]):
@@ -89,6 +95,9 @@ def check_write_discipline(chk):
                     errs.append("no flush()/close() after the last write: buffered data reaches the file (and ENOSPC/EIO surface) only then")
                 sync_at = min([idx[id(s)] for s in after_sync] or [lastw])
                 after_tests = [t for t in tests if idx[id(t)] > sync_at]
+                if after_tests and all(id(t) in weak for t in after_tests):
+                    errs.append("the state test after the write looks at badbit only (bad()): close() and a failed flush of the "
+                                "buffered data set failbit, so a failed write of a file that fits the stream buffer ends in exit 0")
                 if not after_tests:
                     errs.append("the stream state is not tested after the write%s: a failed or short write ends in exit 0"
                                 % (" + flush/close" if after_sync else ""))
